@@ -47,7 +47,15 @@ def _wclass(width):
 def check_window(case):
     width = case["width"]
     alias = case["alias"]
-    win = build_window(case)
+    if alias == "gamma" and case.get("reassign"):
+        # order and peak are documented public attributes: the window is built with other values (and used), then
+        # they are assigned; "the given order" and "peak" of the statement are the current ones
+        ra = case["reassign"]
+        win = build_window(dict(case, order=ra["order"], peak=ra["peak"]))
+        call("get_impulse_response (before order / peak are assigned)", win.get_impulse_response, max(2, width))
+        win.order, win.peak = case["order"], case["peak"]
+    else:
+        win = build_window(case)
     if case.get("prior") is not None:
         # earlier requests (another width on the same object, the same width on another window class) must not
         # influence this one, and the array returned earlier must not be handed out again and modified
@@ -70,6 +78,8 @@ def check_window(case):
         m = float(np.min(w))
         require(m >= -1e-15, "window of width {} has a negative sample {!r} at index {}", width, m, int(np.argmin(w)))
     labels = [alias, _wclass(width), "odd" if width % 2 else "even"]
+    if alias == "gamma" and case.get("reassign"):
+        labels.append("order/peak assigned after construction")
     if alias != "gamma":
         want = ref.normalised(alias, width)
         if width >= 2:  # a single sample has no area (width - 1 = 0): only length and sign are judged
@@ -120,13 +130,14 @@ def window_cases():
     orders = st.one_of(st.integers(2, 8), st.integers(3, 8), st.integers(1, 8))
     peaks = st.one_of(floats(0.05, 0.98), floats(0.5, 0.98), st.sampled_from([0.5, 0.75, 0.9, 0.25, 0.95]))
 
-    def build(alias, width, order, peak, prior):
+    def build(alias, width, order, peak, prior, reassign):
         if alias != "gamma":
             return {"alias": alias, "width": width, "prior": prior}
-        return {"alias": "gamma", "width": width, "order": order, "peak": peak, "prior": prior}
+        return {"alias": "gamma", "width": width, "order": order, "peak": peak, "prior": prior, "reassign": reassign}
 
     return st.builds(build, st.sampled_from(WINDOWS + ["gamma", "gamma", "gamma"]), _widths(), orders, peaks,
-                     st.one_of(st.none(), st.none(), st.integers(0, 4)))
+                     st.one_of(st.none(), st.none(), st.integers(0, 4)),
+                     st.one_of(st.none(), st.none(), st.none(), st.fixed_dictionaries({"order": st.integers(1, 8), "peak": st.sampled_from([0.5, 0.75, 0.9, 0.25])})))
 
 
 def window_enum(tier):
